@@ -55,8 +55,21 @@ def run(ctx):
         base = os.path.join(core.REPO, "wellen/inputs")
         files = [os.path.join(base, s) for s in SOURCES if os.path.exists(os.path.join(base, s)) and os.path.getsize(os.path.join(base, s)) > 0]
         files += gen_files(ctx)
+        # names that are not ASCII (multi-byte UTF-8 in scope and variable names, $date / $version): behavioural round trip only
+        # (the Lean JSON printer escapes such characters differently from serde_json)
+        ufiles = []
+        for k, (sc, names) in enumerate([("prüfstand", ["zähler", "größe", "Δt"]), ("top", ["a", "名前", "ü"]), ("Ω", ["x", "y"])]):
+            p = os.path.join(ctx.work, "files", f"u{k}.vcd")
+            hdr = f"$date Größe {k} $end\n$version vé $end\n$timescale 1ns $end\n$scope module {sc} $end\n"
+            ids = "!\"#"
+            for i, n in enumerate(names):
+                hdr += f"$var wire {4 if i else 1} {ids[i]} {n}{' [3:0]' if i else ''} $end\n"
+            hdr += "$scope module inner_ß $end\n$var real 64 % r $end\n$upscope $end\n$upscope $end\n$enddefinitions $end\n"
+            body = "#0\n0!\nb0101 \"\nr1.5 %\n#5\n1!\n#7\nbx1 \"\n"
+            open(p, "w", encoding="utf-8").write(hdr + body)
+            ufiles.append(p)
         # (1) behavioural round trip in the real code
-        rq = corpus_requests("C17") + [f"serdert {f}" for f in files]
+        rq = corpus_requests("C17") + [f"serdert {f}" for f in files + ufiles]
         impl = [("same" if l.startswith("same:") else ("panic" if l.startswith("panic") else l)) for l in ctx.impl(rq)]
         model = ctx.model(rq)
         core.compare_streams(res, rq, impl, model, is_nontrivial=lambda r, i: i == "same",
